@@ -123,6 +123,22 @@ pub fn from_options(r: &json_syntax::print::Options) -> rp::Opts {
 /// search that differ only in the hash function.
 pub static EXTENDED_BATTERY: std::sync::atomic::AtomicBool = std::sync::atomic::AtomicBool::new(true);
 
+thread_local! {
+    /// Per-thread switch for the second battery: callers that run the protocol on millions of
+    /// documents or states give it to a deterministic quarter of them (chosen by a hash of the
+    /// document / state, so that the same cases get it in every run).
+    pub static SECOND_BATTERY_HERE: std::cell::Cell<bool> = const { std::cell::Cell::new(true) };
+}
+
+/// FNV-1a, for the deterministic choice above.
+pub fn fnv(bytes: &[u8]) -> u64 {
+    let mut h = 0xcbf29ce484222325u64;
+    for b in bytes {
+        h = (h ^ *b as u64).wrapping_mul(0x100000001b3);
+    }
+    h
+}
+
 pub fn iterator_protocol<I, T, F>(what: &str, make: F, want: &[T]) -> Result<(), String>
 where
     I: Iterator<Item = T>,
@@ -200,7 +216,7 @@ where
             return bad(format!("step_by({step}) yields {got:?}"));
         }
     }
-    if !EXTENDED_BATTERY.load(std::sync::atomic::Ordering::Relaxed) {
+    if !EXTENDED_BATTERY.load(std::sync::atomic::Ordering::Relaxed) || !SECOND_BATTERY_HERE.with(|c| c.get()) {
         return Ok(());
     }
     // the other provided consumers an impl may specialise: collect, for_each, find, position,
